@@ -61,6 +61,10 @@ func c11Cfg(cc c11Cell) cache.Config {
 	}
 
 	cfg.DeleteExpiredAfter = 24 * time.Hour
+	if cc.DEA == "default" {
+		cfg.DeleteExpiredAfter = 0 // left unset: the documented default of 24h applies
+	}
+
 	if cc.DEA == "1m" || cc.DEA == "1m+sys" || cc.DEA == "1m+count" {
 		cfg.DeleteExpiredAfter = time.Minute
 	}
@@ -87,6 +91,15 @@ func c11Cells(tier string) []Cell {
 				for first := range c11Alphabet(0) {
 					cells = append(cells, Cell{ID: c11Cell{Backend: b, TTL: ttl, DEA: dea, First: first}.id()})
 				}
+			}
+		}
+	}
+
+	// DeleteExpiredAfter left at its default (24h, whatever the TimeToLive is)
+	for _, b := range backendKinds {
+		for _, ttl := range []string{"5m", "unlimited"} {
+			for first := range c11Alphabet(0) {
+				cells = append(cells, Cell{ID: c11Cell{Backend: b, TTL: ttl, DEA: "default", First: first}.id()})
 			}
 		}
 	}
@@ -383,7 +396,14 @@ func c11RealInProcess(cc c11Cell) CellResult {
 
 func c11Spec(cc c11Cell, depth int) (SeqSpec, []bop) {
 	cfg := c11Cfg(cc)
-	ops := c11Alphabet(cfg.DeleteExpiredAfter)
+
+	// what the model works with: an unset DeleteExpiredAfter means the documented 24h
+	eff := cfg
+	if eff.DeleteExpiredAfter == 0 {
+		eff.DeleteExpiredAfter = 24 * time.Hour
+	}
+
+	ops := c11Alphabet(eff.DeleteExpiredAfter)
 	keys := c07Keys[1:4]
 
 	names := make([]string, len(ops))
@@ -397,7 +417,7 @@ func c11Spec(cc c11Cell, depth int) (SeqSpec, []bop) {
 		New: func() interface{} {
 			vclock.Reset()
 
-			s := &bstate{b: newBackend(cc.Backend, cfg), m: ref.NewExpMap(cfg.TimeToLive), keys: keys, cfg: cfg}
+			s := &bstate{b: newBackend(cc.Backend, cfg), m: ref.NewExpMap(cfg.TimeToLive), keys: keys, cfg: eff}
 			if cc.First >= 0 {
 				if msg, ok := s.apply(ops[cc.First]); !ok {
 					panic("first-op failure: " + msg)
@@ -455,7 +475,7 @@ func init() {
 		ID: "C11", Title: "The janitor deletes only entries expired longer than DeleteExpiredAfter",
 		Cells: c11Cells, Run: c11Run,
 		Rule: "explicit-state BFS over sequences of {Write default TTL, Write per-call TTL 10s, Write per-call TTL -2m, Advance 1m, Advance DeleteExpiredAfter+1s, Cleanup, ExpireAll} on 3 keys, " +
-			"for TimeToLive in {5m, Unlimited} x DeleteExpiredAfter in {24h, 1m, 1m with a never exceeded SysMemSoftLimit, 1m with CountSoftLimit 1 (exceeded only by entries the cycle deletes anyway, or by several kept keys: the model then evicts everything)} x 3 backends; Cleanup is the janitor's own invokeCleanup called through a verif-tagged accessor; " +
+			"for TimeToLive in {5m, Unlimited} x DeleteExpiredAfter in {24h, left at its default (24h), 1m, 1m with a never exceeded SysMemSoftLimit, 1m with CountSoftLimit 1 (exceeded only by entries the cycle deletes anyway, or by several kept keys: the model then evicts everything)} x 3 backends; Cleanup is the janitor's own invokeCleanup called through a verif-tagged accessor; " +
 			"after every transition Len and a full Walk are compared with the model (removed <=> expiry != never and expiry < now-DeleteExpiredAfter)",
 		Assumptions: []string{
 			"BFS cells: the janitor goroutine is not started; its cycle is an explicit operation calling the same function, at every position the alphabet allows",
